@@ -119,6 +119,11 @@ theorem good_fixed_of_pinned : ∀ d : Elem K, Good guardPinned d → Good guard
   · intro f n _; trivial
   · intro t cs ih h; simp only [Good] at h ⊢; exact hL cs ih h
 
+end geometry
+
+section geometry2
+variable {K : Type} [Field K] [LinearOrder K]
+
 /-- **fusing preserves the model's geometry** (pinned code).  The multiset of
 (jointed body it hangs on, kind, name, pose relative to that body) over all geoms, sites,
 cameras and jointed bodies — for `fromto` elements: both end points — is the same in the fused
@@ -173,7 +178,7 @@ theorem fuseFixed_composite_inertia_preserved {M : Type} [AddCommMonoid M] (w : 
     ((docEntries (fuseFixed d)).map w).sum = ((docEntries d).map w).sum :=
   ((fuseFixed_preserves_entries d h).map w).sum_eq
 
-end geometry
+end geometry2
 
 /-! ## witnesses: the hypotheses cannot be dropped -/
 
@@ -222,44 +227,48 @@ def docGood : Elem Rat :=
           [.joint false "j", .leaf .geom "g3" (.pq none none),
            .body "C" none none [.leaf .geom "g4" (.pq (some ⟨0, 0, 1⟩) none)]]]]]
 
-example : Good guardPinned (K := Rat) docGood := by
+example : Good guardPinned (α := Rat) docGood := by
   simp only [docGood, Good, GoodL, isJointlessBody, hasJoint, isJoint, List.any_cons, List.any_nil,
-    fusable_pinned_iff, Fusable, isOther, posD, quatD, Option.getD, Q4.normSq, V3.zero, Q4.one,
+    Fusable, guardOK_pinned_iff, isOther, posD, quatD, Option.getD, Q4.normSq, V3.zero, Q4.one,
     List.mem_cons, List.not_mem_nil]
   norm_num
 
 example : (names docGood).Nodup := by decide +kernel
 
-/-- the fused good document: everything hangs directly on the world or on `J` -/
-example : fuse docGood =
-    .other "mujoco" [.other "option" [], .other "worldbody"
-      [.leaf .geom "floor" (.pq none none),
-       .leaf .geom "g1" (.pq (some ⟨-2/5, 0, 3/5⟩) (some ⟨0, 3/5, 0, -4/5⟩)),
-       .leaf .geom "g2" (.fromto ⟨0, 0, 1⟩ ⟨0, 1, 1⟩ none),
-       .body "J" (some ⟨-7/25, 0, 1/5⟩) (some ⟨12/25, 9/25, 16/25, -12/25⟩)
-         [.joint false "j", .leaf .geom "g3" (.pq none none),
-          .leaf .geom "g4" (.pq (some ⟨0, 0, 1⟩) none)],
-       .leaf .site "s" (.pq (some ⟨-7/25, 2, 1/5⟩) (some ⟨3/5, 0, 4/5, 0⟩))]] := by
+/-- the fused good document: everything hangs directly on the world or on `J`, at the poses the
+original document gave (the site `s` is appended after `J`: same multiset, other order) -/
+example : (docEntries (fuse docGood)).map (fun en => (en.anchor, en.name, en.pose)) =
+    [("", "floor", .frame ⟨⟨0, 0, 0⟩, ⟨1, 0, 0, 0⟩⟩),
+     ("", "g1", .frame ⟨⟨-7/50, 0, 13/25⟩, ⟨0, 3/5, 0, -4/5⟩⟩),
+     ("", "g2", .segment ⟨0, 0, 1⟩ ⟨0, 1, 1⟩),
+     ("", "J", .frame ⟨⟨-7/25, 0, 1/25⟩, ⟨12/25, 9/25, 16/25, -12/25⟩⟩),
+     ("J", "g3", .frame ⟨⟨0, 0, 0⟩, ⟨1, 0, 0, 0⟩⟩),
+     ("J", "g4", .frame ⟨⟨0, 0, 1⟩, ⟨1, 0, 0, 0⟩⟩),
+     ("", "s", .frame ⟨⟨-7/25, 2, 1/25⟩, ⟨3/5, 0, 4/5, 0⟩⟩)] := by
+  decide +kernel
+
+example : (docEntries docGood).map (fun en => (en.anchor, en.name)) =
+    [("", "floor"), ("", "g1"), ("", "g2"), ("", "s"), ("", "J"), ("J", "g3"), ("J", "g4")] := by
   decide +kernel
 
 example : relPose (fuse docGood) .site "s" = relPose docGood .site "s" :=
   fuse_preserves_relPose docGood
     (by simp only [docGood, Good, GoodL, isJointlessBody, hasJoint, isJoint, List.any_cons,
-          List.any_nil, fusable_pinned_iff, Fusable, isOther, posD, quatD, Option.getD, Q4.normSq,
+          List.any_nil, Fusable, guardOK_pinned_iff, isOther, posD, quatD, Option.getD, Q4.normSq,
           V3.zero, Q4.one, List.mem_cons, List.not_mem_nil]
         norm_num)
     (by decide +kernel) .site "s"
 
 /-- the D5 witness violates exactly hypothesis (b) -/
-example : ¬ Good guardPinned (K := Rat) docRotOnly := by
+example : ¬ Good guardPinned (α := Rat) docRotOnly := by
   simp only [docRotOnly, Good, GoodL, isJointlessBody, hasJoint, isJoint, List.any_cons,
-    List.any_nil, fusable_pinned_iff, Fusable, isOther, posD, quatD, Option.getD, Q4.normSq,
+    List.any_nil, Fusable, guardOK_pinned_iff, isOther, posD, quatD, Option.getD, Q4.normSq,
     V3.zero, Q4.one, List.mem_cons, List.not_mem_nil]
   norm_num
 
-example : Good guardFixed (K := Rat) docRotOnly := by
+example : Good guardFixed (α := Rat) docRotOnly := by
   simp only [docRotOnly, Good, GoodL, isJointlessBody, hasJoint, isJoint, List.any_cons,
-    List.any_nil, fusable_fixed_iff, Fusable, isOther, posD, quatD, Option.getD, Q4.normSq,
+    List.any_nil, Fusable, guardOK_fixed, isOther, posD, quatD, Option.getD, Q4.normSq,
     List.mem_cons, List.not_mem_nil]
   norm_num
 
